@@ -213,6 +213,16 @@ class Exec:
         self.w.add(op["new"], u)
         return u
 
+    def op_mk_crowd(self, op):
+        """A universe with very many members, built natively in one step."""
+        cls = C.UNIVERSE_CLASSES[op.get("cls", "Universe")]
+        verts = [Vertex(attributes={"sim_tag": 0}) for _ in range(op["n"])]
+        for i, v in enumerate(verts):
+            self.w.add(f"{op['new']}.c{i}", v)
+        u = cls(attributes={"sim_tag": op.get("tag", 0)}, vertices=verts)
+        self.w.add(op["new"], u)
+        return u
+
     def op_mk_laws(self, op):
         law = UniverseLaws(**dict(op.get("kw") or {}))
         self.w.add(op["new"], law)
